@@ -1,6 +1,7 @@
 import LopdfModel.Model.Obj
 import LopdfModel.Model.Pages
 import LopdfModel.Gen.Crypt
+import LopdfModel.Gen.Tables
 /-
   C05 / C06 — model of lopdf's standard security handler as coded:
   src/encryption/rc4.rs (KSA + PRGA), src/encryption/pkcs5.rs, the CBC chaining of the
@@ -499,13 +500,16 @@ def Alg.computeO6 (P : Prims) (a : Alg) (fileKey pw salts : Bytes) : Bytes × By
   let ks := slice salts 8 8
   (a.hash P pw vs a.userValue ++ vs ++ ks, cbc0Enc P (a.hash P pw ks a.userValue) fileKey)
 
-/-- `compute_permissions`: `rnd` = 4 random bytes -/
-def Alg.computePerms (P : Prims) (a : Alg) (fileKey rnd : Bytes) : Bytes :=
-  P.aesEnc fileKey (leBytes 8 (pValue a.permissions) ++ [if a.encryptMetadata then 84 else 70] ++ PERMS_TAG ++ rnd.take 4)
+/-- `compute_permissions`: `rnd` = 4 random bytes.  AS CODED: `encrypt_block_mut(&mut bytes.into())`
+encrypts a temporary copy of the block (`[u8; 16] -> GenericArray` is by value); the block that is
+returned and stored as `Perms` is NOT encrypted (finding F-C06-c). The file key is not used. -/
+def Alg.computePerms (_P : Prims) (a : Alg) (_fileKey rnd : Bytes) : Bytes :=
+  leBytes 8 (pValue a.permissions) ++ [if a.encryptMetadata then 84 else 70] ++ PERMS_TAG ++ rnd.take 4
 
-/-- `validate_permissions` -/
-def Alg.validatePerms (P : Prims) (a : Alg) (fileKey : Bytes) : Except Err Unit :=
-  let b := P.aesDec fileKey a.permsEncrypted
+/-- `validate_permissions`: same slip — the decryption goes to a temporary, the checks look at the
+stored `Perms` bytes as they are. -/
+def Alg.validatePerms (_P : Prims) (a : Alg) (_fileKey : Bytes) : Except Err Unit :=
+  let b := a.permsEncrypted
   if slice b 9 3 ≠ PERMS_TAG then .error .incorrectPassword
   else if b.take 3 ≠ (leBytes 8 (pValue a.permissions)).take 3 then .error .incorrectPassword
   else if slice b 8 1 ≠ [if a.encryptMetadata then 84 else 70] then .error .incorrectPassword
@@ -790,5 +794,10 @@ def Doc.decryptRaw (P : Prims) (d : Doc) (pw : Bytes) : Except Err Doc :=
           | .ok os =>
             .ok { trailer := d.trailer.remove K_ENCRYPT, objects := Objects.erase os encId, maxId := d.maxId }
   | _, _ => .error .notEncrypted
+
+/-- `sanitize_password_r4` = `encodings::string_to_bytes(&PDF_DOC_ENCODING, pw)` on the UTF-16 code
+units of the password: a unit that is not in the table is DROPPED (`filter_map`). -/
+def sanitizeR4 (units : List Nat) : Bytes :=
+  units.filterMap fun u => (PDF_DOC_ENCODING.findIdx? (fun c => c == some u)).map Nat.toUInt8
 
 end Lopdf.Crypt
